@@ -286,3 +286,58 @@ func replaySpecial(c *Cfg, prop string, spec []byte) bool {
 	}
 	return true
 }
+
+// PanicCase: a callback of a node inside a flow panics (with a value of some kind). The library may let the panic
+// escape or turn it into an error; what it may not do is report the run as a success, or go on to further nodes.
+type PanicCase struct {
+	Family string `json:"family"`
+	Phase  string `json:"phase"` // prep | exec | post
+	Val    string `json:"val"`   // kind of the panic value
+	Shape  string `json:"shape"` // flat | nested | second-visit
+}
+
+func runPanicCase(cs *PanicCase) (fs []finding) {
+	vals := map[string]any{"string": "boom", "int": 42, "struct": abortSignal{3}, "ptr": &abortSignal{4}, "bool": false, "error": errors.New("panicked error"), "stringer": time.Second, "float": 1.5, "slice": []string{"a"}}
+	var after, offEmpty, offDefault int
+	pn := &panicNode{BaseNode: flyt.NewBaseNode(), phase: cs.Phase, val: vals[cs.Val]}
+	head := &probeNode{flyt.NewBaseNode(), new(int)}
+	zE := &probeNode{flyt.NewBaseNode(), &offEmpty}
+	zD := &probeNode{flyt.NewBaseNode(), &offDefault}
+	zA := &probeNode{flyt.NewBaseNode(), &after}
+	var root flyt.Node
+	switch cs.Shape {
+	case "nested":
+		inner := flyt.NewFlow(pn)
+		inner.Connect(pn, "", zE)
+		outer := flyt.NewFlow(head)
+		outer.Connect(head, flyt.DefaultAction, inner)
+		outer.Connect(inner, flyt.DefaultAction, zD)
+		outer.Connect(inner, "", zE)
+		outer.Connect(inner, "custom", zA)
+		root = outer
+	default:
+		f := flyt.NewFlow(head)
+		f.Connect(head, flyt.DefaultAction, pn)
+		f.Connect(pn, "", zE)
+		f.Connect(pn, flyt.DefaultAction, zD)
+		f.Connect(pn, "custom", zA)
+		root = f
+	}
+	var err error
+	escaped := func() (p bool) {
+		defer func() {
+			if recover() != nil {
+				p = true
+			}
+		}()
+		_, err = flyt.Run(context.Background(), root, flyt.NewSharedStore())
+		return false
+	}()
+	if !escaped && err == nil {
+		fs = append(fs, finding{"success-despite-panicking-callback:" + cs.Phase, fmt.Sprintf("the %s callback of a node on the path (%s flow) panicked with a value of kind %s; the panic did not reach the caller and the run returned a nil error: a run is a success only if every phase on its path succeeded", cs.Phase, cs.Shape, cs.Val)})
+	}
+	if n := after + offEmpty + offDefault; n > 0 {
+		fs = append(fs, finding{"continued-after-panicking-callback:" + cs.Phase, fmt.Sprintf("the %s callback of a node (%s flow) panicked with a value of kind %s; %d further node(s) ran afterwards (behind the empty action: %d, behind the default action: %d, behind the node's own action: %d)", cs.Phase, cs.Shape, cs.Val, n, offEmpty, offDefault, after)})
+	}
+	return fs
+}
